@@ -12,7 +12,7 @@ if args and args[0] == "--also":
 res_path = Path(os.environ.get("SEEDED_RESULTS", str(S / "RESULTS.json")))
 results = json.load(open(res_path)) if res_path.exists() else {}
 claimed = {c["property_id"] for c in json.load(open(V / "MANIFEST.json"))["checks"]}
-for d in sorted(p for p in S.iterdir() if p.is_dir()):
+for d in sorted(p for p in S.iterdir() if p.is_dir() and (p / "meta.json").exists()):
     sid = d.name; prop = sid[:3]
     if args and sid not in args and prop not in args:
         continue
